@@ -44,7 +44,7 @@ paths:
   /pets/{id}:
     parameters:
       - {name: id, in: path, required: true, schema: {type: integer, minimum: 1}}
-      - {name: X-Tenant, in: header, schema: {type: string, maxLength: 8}}
+      - {name: X-Tenant, in: header, schema: {type: string, maxLength: 8, not: {enum: [root]}}}
       - {name: fields, in: query, schema: {type: string, pattern: '^[a-z,]*$'}}
     get:
       operationId: getPet
@@ -143,6 +143,38 @@ paths:
                 extra: {type: object, properties: {k: {type: string, minLength: 1}, n: {type: string}}}
       responses:
         '201': {description: created}
+  /loose:
+    post:
+      operationId: loose
+      security: []
+      requestBody:
+        content:
+          application/*:
+            schema: {type: object}
+      responses:
+        '201': {description: created}
+  /strict:
+    post:
+      operationId: strict
+      security: []
+      requestBody:
+        content:
+          application/*:
+            schema: {type: object}
+          application/json:
+            schema: {type: object, required: [name], properties: {name: {type: string, minLength: 1}}}
+      responses:
+        '201': {description: created}
+  /vendor:
+    post:
+      operationId: vendor
+      security: []
+      requestBody:
+        content:
+          application/vnd.MARK+json:
+            schema: {type: object, required: [v], properties: {v: {type: integer}}}
+      responses:
+        '201': {description: created}
   /csv:
     post:
       operationId: csv
@@ -230,6 +262,11 @@ components:
         name: {type: string, pattern: '^[A-Za-z]+MARKf?$'}
         count: {type: integer}
         tags: {type: array, uniqueItems: true, minItems: 2, items: {type: string}}
+    Odd:
+      type: object
+      properties:
+        n: {not: {type: string, enum: [forbidden, banned]}}
+        m: {type: integer, not: {minimum: 100}}
     Err:
       type: object
       required: [error]
